@@ -712,6 +712,14 @@ func main() {
 			}
 		}
 		rec(nil)
+		uses := 0
+		for _, lg := range useLogs() {
+			uses++
+			if k, d := catalogueUse(lg); k != "" {
+				run.Violation(k, d, map[string]interface{}{"log": lg, "use": true})
+			}
+		}
+		transitions += uses
 		transitions += logs + cuts
 		states += logs
 		return ev.Coverage{"crash_inside_request_cases": crashCases, "catalogue_logs": logs, "catalogue_cut_checks": cuts, "evaluations": transitions, "distinct_nontrivial": states, "traces_validated_against_impl": transitions,
@@ -727,6 +735,35 @@ func main() {
 		}
 		b, _ := os.ReadFile(os.Args[2])
 		json.Unmarshal(b, &f)
+		var lf struct {
+			Replay struct {
+				Log        []centry `json:"log"`
+				Cut        *int     `json:"cut"`
+				Used       bool     `json:"used"`
+				BackToBack bool     `json:"back_to_back"`
+				Use        bool     `json:"use"`
+			} `json:"replay"`
+		}
+		json.Unmarshal(b, &lf)
+		if len(lf.Replay.Log) > 0 {
+			var k, d string
+			switch {
+			case lf.Replay.Use:
+				k, d = catalogueUse(lf.Replay.Log)
+			case lf.Replay.BackToBack:
+				k, d = catalogueBackToBack(lf.Replay.Log)
+			case lf.Replay.Cut != nil:
+				k, d = catalogueCut(lf.Replay.Log, *lf.Replay.Cut, lf.Replay.Used)
+			default:
+				k, d = catalogueLog(lf.Replay.Log)
+			}
+			if k != "" && ev.Counts(k) {
+				fmt.Printf("VIOLATION property=%s replay=%s\n  %s: %s\n", ev.As("C14"), os.Args[2], k, d)
+				os.Exit(1)
+			}
+			fmt.Println("replay: property held")
+			return
+		}
 		if f.Replay.Nodes > 0 {
 			limits.creates, limits.deletes, limits.snapshots, limits.restarts = 99, 99, 99, 99
 			w, k, d := build(f.Replay.Nodes, f.Replay.Path)
